@@ -35,6 +35,9 @@ type AttemptPlan struct {
 	HandshakeCut   int  // handshake-fin: bytes of the greeting that still arrive
 	ErrorCalls     int  // how many times Error() is called after Stream returned (>=1)
 	SkipErrorCalls bool
+	StallAfterStop bool // after a cancel / handler / mapper cause the network delivers nothing more
+	ImmediateError bool // the caller calls Error() right after Stream returns, on the same goroutine
+	LogYield       bool // every Errorf/Infof/Print of the library is a scheduling point (parking logger)
 }
 
 // Scenario is a complete simulated run.
@@ -121,6 +124,9 @@ type Run struct {
 	HarnessErr string
 	BubbleDeadlock string
 	free *freeState
+	logYield   bool
+	parkedLogs []chan struct{}
+	logParks   int
 	allCancels []context.CancelFunc
 	start time.Time
 }
@@ -364,6 +370,8 @@ func Execute(t *testing.T, sc *Scenario, tape *Tape) (r *Run) {
 			r.HarnessErr = fmt.Sprintf("bubble panic: %v", p)
 		}
 	}()
+	activeRun.Store(r)
+	defer activeRun.Store(nil)
 	synctest.Test(t, func(t *testing.T) {
 		r.start = time.Now()
 		r.controller()
@@ -574,6 +582,10 @@ func (r *Run) runAttempt(idx int, plan AttemptPlan) bool {
 	r.mu.Lock()
 	r.streamActive = true
 	r.mu.Unlock()
+	r.mu.Lock()
+	r.logYield = plan.LogYield
+	r.mu.Unlock()
+	immediateDone := false
 	call := r.launch(func() {
 		err := r.streamer.Stream(ctx, r.handler)
 		r.mu.Lock()
@@ -581,7 +593,19 @@ func (r *Run) runAttempt(idx int, plan AttemptPlan) bool {
 		att.Returned = true
 		r.streamActive = false
 		r.mu.Unlock()
+		if plan.ImmediateError && !plan.SkipErrorCalls {
+			e := r.streamer.Error()
+			r.mu.Lock()
+			att.ErrorResults = append(att.ErrorResults, e)
+			immediateDone = true
+			r.mu.Unlock()
+		}
 	})
+	returned := func() bool {
+		r.mu.Lock()
+		defer r.mu.Unlock()
+		return att.Returned
+	}
 
 	causeFired := len(att.Causes) > 0
 	fire := func(name string) {
@@ -620,7 +644,7 @@ func (r *Run) runAttempt(idx int, plan AttemptPlan) bool {
 		synctest.Wait()
 		r.steps++
 		att.Steps++
-		if call.finished(r) {
+		if call.finished(r) || returned() {
 			break
 		}
 		if att.Steps > sc.StepCap {
@@ -795,6 +819,10 @@ func (r *Run) runAttempt(idx int, plan AttemptPlan) bool {
 
 		// ---- benign actions -------------------------------------------------
 		canDeliver := conn != nil && wire > 0 && !conn.isClosed()
+		if plan.StallAfterStop && causeFired && dumping {
+			canDeliver = false // the network has gone silent
+		}
+		nLogs := r.parkedLogCount()
 		if plan.Stop == stopTimeout && dumping && master.packetsDelivered() >= plan.CancelAfter && !causeFired && h == nil && m == nil && conn.isReading() {
 			// the master stalls here
 			fire("read-timeout")
@@ -818,6 +846,9 @@ func (r *Run) runAttempt(idx int, plan AttemptPlan) bool {
 		}
 		if m != nil {
 			acts = append(acts, 2)
+		}
+		if nLogs > 0 {
+			acts = append(acts, 3)
 		}
 		if len(acts) == 0 && canDeliver {
 			acts = append(acts, 0)
@@ -845,6 +876,8 @@ func (r *Run) runAttempt(idx int, plan AttemptPlan) bool {
 				r.releaseHandler(nil)
 			case 2:
 				r.releaseMapper(mapperVerdict{})
+			case 3:
+				r.releaseLog(r.sch.N(nLogs))
 			}
 			continue
 		}
@@ -888,7 +921,29 @@ func (r *Run) runAttempt(idx int, plan AttemptPlan) bool {
 		return false
 	}
 
-	// Stream has returned (quiescent point right after the return)
+	// Stream has returned. Fair environment: goroutines parked in the logger are
+	// released; an immediate Error() call gets its chance to return.
+	for k := 0; k < 200; k++ {
+		synctest.Wait()
+		if r.releaseAllLogs() == 0 {
+			break
+		}
+	}
+	if plan.ImmediateError && !plan.SkipErrorCalls && !call.finished(r) {
+		time.Sleep(10 * time.Minute)
+		for k := 0; k < 200; k++ {
+			synctest.Wait()
+			if r.releaseAllLogs() == 0 {
+				break
+			}
+		}
+		if !call.finished(r) {
+			att.ErrorBlocked = true
+			att.HangDump = probeGoroutines()
+			r.logf("immediate Error() call blocked")
+		}
+	}
+	_ = immediateDone
 	att.ReturnStep = r.steps
 	att.StreamPanic = call.panic
 	if r.master != nil {
@@ -914,11 +969,19 @@ func (r *Run) runAttempt(idx int, plan AttemptPlan) bool {
 	if n <= 0 {
 		n = 2
 	}
-	if !plan.SkipErrorCalls {
+	if plan.ImmediateError {
+		n--
+	}
+	if !plan.SkipErrorCalls && !att.ErrorBlocked {
 		for k := 0; k < n; k++ {
 			var res error
 			ec := r.launch(func() { res = r.streamer.Error() })
-			synctest.Wait()
+			for j := 0; j < 200; j++ {
+				synctest.Wait()
+				if r.releaseAllLogs() == 0 {
+					break
+				}
+			}
 			r.steps++
 			if !ec.finished(r) {
 				// give timers a chance, then declare it blocked
@@ -973,6 +1036,9 @@ func (r *Run) abortAttempt() {
 			r.releaseMapper(mapperVerdict{kind: 1})
 			continue
 		}
+		if r.releaseAllLogs() > 0 {
+			continue
+		}
 		if r.conn != nil && !r.conn.isClosed() {
 			r.conn.reset()
 			r.conn.mu.Lock()
@@ -1008,4 +1074,50 @@ func minInt(a, b int) int {
 		return a
 	}
 	return b
+}
+
+// ---------------------------------------------------------------------------
+// parking logger: the library's log sink is a seam the simulator owns, so each
+// Errorf/Infof/Print call of a library goroutine can be made a scheduling point
+
+func (r *Run) parkInLogger() {
+	r.mu.Lock()
+	if !r.logYield || r.free != nil {
+		r.mu.Unlock()
+		return
+	}
+	ch := make(chan struct{})
+	r.parkedLogs = append(r.parkedLogs, ch)
+	r.logParks++
+	r.mu.Unlock()
+	<-ch
+}
+
+func (r *Run) parkedLogCount() int {
+	r.mu.Lock()
+	defer r.mu.Unlock()
+	return len(r.parkedLogs)
+}
+
+func (r *Run) releaseLog(i int) {
+	r.mu.Lock()
+	if i >= len(r.parkedLogs) {
+		r.mu.Unlock()
+		return
+	}
+	ch := r.parkedLogs[i]
+	r.parkedLogs = append(r.parkedLogs[:i:i], r.parkedLogs[i+1:]...)
+	r.mu.Unlock()
+	close(ch)
+}
+
+func (r *Run) releaseAllLogs() int {
+	r.mu.Lock()
+	chs := r.parkedLogs
+	r.parkedLogs = nil
+	r.mu.Unlock()
+	for _, ch := range chs {
+		close(ch)
+	}
+	return len(chs)
 }
